@@ -39,6 +39,11 @@ impl<'a> SendBlocksProofProcess<'a> {
 
     pub(crate) fn execute(self) -> Status {
         let status = self.execute_internally();
+        if !status.is_ok() {
+            // The response is rejected and the request is going to be cleared: let the fetching
+            // items of the request be sent to another peer, otherwise they are never fetched again.
+            self.protocol.peers().mark_fetching_headers_timeout(self.peer_index);
+        }
         self.protocol
             .peers()
             .update_blocks_proof_request(self.peer_index, None, false);
